@@ -183,7 +183,39 @@ def gen_route(rng):
     return sc
 
 
+def gen_stopcount(rng):
+    base = rng.choice([gen_core1, gen_tandem, gen_prio, gen_renege, gen_cls])
+    sc = base(rng)
+    sc["stop"] = rng.choice(["Complete", "Finish", "Arrive", "Accept"])
+    sc["maxc"] = rng.randint(1, 8)
+    # the arrival process must keep going until the count is reached
+    K = sc["K"]
+    sc["arrS"][0][0] = [v for v in sc["arrS"][0][0] if v > 0] or [1, 2]
+    if sc["stop"] in ("Complete", "Finish", "Accept"):
+        for nd in sc["nodes"]:
+            if nd["c"] == 0:
+                nd["c"] = 1
+        if "batchS" in sc:
+            sc["batchS"][0][0] = [b for b in sc["batchS"][0][0] if b > 0] or [1]
+        sc["syscap"] = INF
+        for n in range(sc["N"]):
+            for k in range(K):
+                sc["svcS"][n][k] = sc["svcS"][n][k] or [1]
+    if sc["stop"] == "Complete":
+        # completions must be possible: leave probability, no blocking deadlock -> uncapacitated
+        for nd in sc["nodes"]:
+            nd["qcap"] = INF
+        for r in sc["route"]:
+            if r["kind"] == "tm":
+                r["P"] = [[min(v, 1) for v in row] for row in r["P"]]
+        sc["patS"] = [[[] for _ in range(K)] for _ in range(sc["N"])]
+        for nd in sc["nodes"]:
+            nd["bk"] = []
+    return sc
+
+
 FAMILIES = {
+    "stopcount": gen_stopcount,
     "core1": gen_core1,
     "tandem": gen_tandem,
     "prio": gen_prio,
@@ -273,4 +305,11 @@ def mc_instances(name, tier):
                     "route": [{"kind": "fpb", "routes": [[[2, 3]], [[3], [1, 2]]], "rule": "all", "choice": "jsq"}],
                     "T": 6 if not big else 8})
         return [(fam, 4 if not big else 5)]
+    if name == "stopcount":
+        fam = []
+        for stop in ["Complete", "Finish", "Arrive", "Accept"]:
+            fam.append({"N": 1, "K": 1, "nodes": [{"c": 1, "qcap": 1, "bk": [[0, 2]]}],
+                        "arrS": [[[1, 2]]], "batchS": [[[1, 2]]], "svcS": [[[1, 2]]],
+                        "route": [tm([[0]])], "stop": stop, "maxc": 3 if not big else 4, "T": INF})
+        return [(fam, 8 if not big else 10)]
     raise KeyError(name)
